@@ -360,6 +360,11 @@ func (c *cacheTransaction) Delete(ctx context.Context, key string) error {
 }
 
 func (c *cacheTransaction) Commit(ctx context.Context) error {
+	// A finished transaction must refuse further use: stop serving reads
+	// from this transaction's own cache, so that they reach the underlying
+	// transaction and fail there.
+	defer c.cache.SetEnabled(false)
+
 	if err := c.cache.backend.(Transaction).Commit(ctx); err != nil {
 		return err
 	}
@@ -387,6 +392,9 @@ func (c *cacheTransaction) Commit(ctx context.Context) error {
 }
 
 func (c *cacheTransaction) Rollback(ctx context.Context) error {
+	// See Commit.
+	defer c.cache.SetEnabled(false)
+
 	if err := c.cache.backend.(Transaction).Rollback(ctx); err != nil {
 		return err
 	}
